@@ -73,6 +73,19 @@ class KeyProxy(object):
             if self.store:
                 return bytearray(self.store[0])
             return f(*args, **kw)
+        if mode == "pkcs1_13":
+            # a *valid* RSASSA-PKCS1-v1_5 signature over the TLS 1.3
+            # CertificateVerify content: a scheme TLS 1.3 never allows here
+            names = ["padding", "hashAlg", "saltLen"]
+            kw2 = dict(kw)
+            for i, nm in enumerate(names):
+                if len(args) > i + 1:
+                    kw2[nm] = args[i + 1]
+            if kw2.get("padding") != "pss":
+                self.__dict__["corrupted"] -= 1
+                return f(*args, **kw)
+            self.__dict__["pkcs1_hash"] = kw2.get("hashAlg")
+            return f(args[0], "pkcs1", kw2.get("hashAlg"), 0)
         if mode == "other_hash":
             kw = dict(kw)
             names = ["padding", "hashAlg", "saltLen"]
@@ -182,9 +195,12 @@ def make_cases(ctx):
                                    role=role, cls="omit")
         yield base + "-unoffered", dict(site=site, ver=ver, key=k, kx=kx,
                                         role=role, cls="unoffered_scheme")
+        if ver == (3, 4) and k == "rsa":
+            yield base + "-pkcs1_13", dict(site=site, ver=ver, key=k, kx=kx,
+                                           role=role, cls="pkcs1_13")
     for ver in pair.VERSIONS[:4]:
         for what in ("honest", "wrong_password", "wrong_user", "B_zero",
-                     "A_zero"):
+                     "A_zero", "A_N", "A_2N", "A_kN", "B_N", "B_2N"):
             yield "srp-%d%d-%s" % (ver[0], ver[1], what), dict(
                 site="srp", ver=ver, cls=what)
     for what in ("honest", "wrong_secret", "wrong_hash", "other_identity"):
@@ -200,6 +216,8 @@ def make_cases(ctx):
                          "short"):
                 yield "fin-%s-%s-%s" % (sc, role, what), dict(
                     site="finished", sc=sc, role=role, cls=what)
+    for what in ("honest", "other_hash", "same_hash", "both"):
+        yield "stolen-ticket-%s" % what, dict(site="stolen_ticket", cls=what)
     for what in ("honest", "wrong_fp", "no_chain"):
         for ver in ((3, 3), (3, 4)):
             yield "checker-%s-%d" % (what, ver[1]), dict(
@@ -241,7 +259,7 @@ def run_proof(ctx, cid, P):
     site, k, role, cls = P["site"], P["key"], P["role"], P["cls"]
     table = "server" if role == "server" else "client"
     chain, real = load_key(table, k)
-    mode = cls if cls in CLASSES else "honest"
+    mode = cls if cls in CLASSES or cls == "pkcs1_13" else "honest"
     other = None
     if mode == "other_key":
         ot, on = OTHER[k]
@@ -273,6 +291,16 @@ def run_proof(ctx, cid, P):
                 return []
             return None
         adv.Deviant(p.s if role == "server" else p.c, rw)
+    if cls == "pkcs1_13":
+        hid = {"sha1": 2, "sha224": 3, "sha256": 4, "sha384": 5, "sha512": 6}
+
+        def rw13(i, t, msg, raw):
+            h = px.__dict__.get("pkcs1_hash")
+            if t == 15 and h in hid:
+                holder["relabelled"] = True
+                return [adv.Raw(22, raw[:4] + bytes([hid[h], 1]) + raw[6:])]
+            return None
+        adv.Deviant(p.s if role == "server" else p.c, rw13)
     if cls == "unoffered_scheme":
         if not install_unoffered(p, fl, P, holder):
             ctx.count("unoffered_not_applicable")
@@ -301,6 +329,9 @@ def run_proof(ctx, cid, P):
          "proxy_calls": px.calls, "corrupted": px.corrupted,
          "extra": {a: str(b)[:100] for a, b in extra.items()}}
     honest_like = cls == "honest"
+    if cls == "pkcs1_13" and not holder.get("relabelled"):
+        ctx.count("corruption_not_reached")
+        return
     if cls in CLASSES and px.corrupted == 0:
         ctx.count("corruption_not_reached")
         ctx.cell("cell", "%s|%s|%s|not_reached" % (site, keytype, cls))
@@ -444,9 +475,27 @@ def run_srp(ctx, cid, P):
     fl = Flavor("srp", cset=cs, sset=ss, srp_user=user, srp_pass=pw)
     p = Pair()
     holder = {}
-    if cls in ("B_zero", "A_zero"):
-        who = p.s if cls == "B_zero" else p.c
-        want = 12 if cls == "B_zero" else 16
+    if cls in ("A_N", "A_2N", "A_kN"):
+        # the attacker does not know the password: A = k*N makes the
+        # server's secret (A * v^u)^b collapse to 0, which the attacker then
+        # uses as premaster secret
+        from tlslite.keyexchange import SRPKeyExchange
+        from tlslite.utils.cryptomath import numberToByteArray
+        fl.srp_pass = "not-the-password"
+        k = {"A_N": 1, "A_2N": 2}.get(cls) or (3 + ctx.rng.randrange(1000))
+        orig = SRPKeyExchange.processServerKeyExchange
+
+        def psk(self, srvPublicKey, serverKeyExchange):
+            orig(self, srvPublicKey, serverKeyExchange)
+            self.A = k * serverKeyExchange.srp_N
+            holder["done"] = True
+            return numberToByteArray(0)
+        holder["restore"] = (SRPKeyExchange, orig)
+        SRPKeyExchange.processServerKeyExchange = psk
+    if cls in ("B_zero", "A_zero", "B_N", "B_2N"):
+        who = p.s if cls[0] == "B" else p.c
+        want = 12 if cls[0] == "B" else 16
+        mult = {"B_N": 1, "B_2N": 2}.get(cls, 0)
 
         def rw(i, t, msg, raw):
             if t != want:
@@ -458,14 +507,23 @@ def run_srp(ctx, cid, P):
             else:
                 s = wire.parse_ske(bytes(body), "srp", ver)
                 # B is the last vector of the params
-                bl = len(wire.p16(0))
-                i0 = len(s.params) - (s.B.bit_length() + 7) // 8
                 nb = (s.B.bit_length() + 7) // 8
-                body[i0:i0 + nb] = b"\x00" * nb
+                i0 = len(s.params) - nb
+                nv = (mult * s.N).to_bytes(max(1, ((mult * s.N).bit_length()
+                                                  + 7) // 8), "big")
+                if mult == 0:
+                    nv = b"\x00" * nb
+                body[i0 - 2:i0 + nb] = wire.p16(len(nv)) + nv
+                # the server signs nothing in plain SRP: no signature to fix
             holder["done"] = True
             return [adv.Raw(22, wire.hs_msg(want, body))]
         adv.Deviant(who, rw)
-    tc, ts = p.handshake(fl)
+    try:
+        tc, ts = p.handshake(fl)
+    finally:
+        if "restore" in holder:
+            holder["restore"][0].processServerKeyExchange = \
+                holder["restore"][1]
     ctx.ev()
     key = {"site": "srp", "class": cls, "ver": pair.VNAME[ver]}
     W = {"case": cid, "outcome": [outcome(tc), outcome(ts)]}
@@ -478,10 +536,11 @@ def run_srp(ctx, cid, P):
         else:
             ctx.count("honest_accepted")
     else:
-        if cls in ("B_zero", "A_zero") and not holder.get("done"):
+        if cls not in ("wrong_password", "wrong_user") and \
+                not holder.get("done"):
             ctx.count("corruption_not_reached")
             return
-        victim_done = ts.status == "done" if cls != "B_zero" else \
+        victim_done = ts.status == "done" if cls[0] != "B" else \
             tc.status == "done"
         if victim_done:
             ctx.violation(dict(key, clause="identity_without_proof"), W,
@@ -489,7 +548,7 @@ def run_srp(ctx, cid, P):
                           (cls, sname))
         else:
             ctx.count("rejected")
-            vt = ts if cls != "B_zero" else tc
+            vt = ts if cls[0] != "B" else tc
             cl = mon.classify_exc(vt.exc) if vt.exc else vt.status
             if cl.startswith("undocumented"):
                 ctx.violation(dict(key, clause="undocumented_exception",
@@ -536,6 +595,73 @@ def run_psk(ctx, cid, P):
                                    exc=type(t.exc).__name__,
                                    frame=t.frame()), W, repr(t.exc))
     ctx.cell("cell", "psk|%s|%s|%s" % (cls, mode, both))
+
+
+def run_stolen_ticket(ctx, cid, P):
+    """a TLS 1.3 ticket issued to a certificate-authenticated client is
+    copied by someone who holds neither the resumption secret nor the
+    client's key and offered as a PSK identity with a junk secret"""
+    from vt.flavours import TK, pump
+    var = P["cls"]
+    c1 = ver_settings((3, 4), cipherNames=["aes128gcm"])
+    s1 = ver_settings((3, 4), ticketKeys=TK)
+    fl = Flavor("cert", skey="rsa", ckey="rsa", req_cert=True, cset=c1,
+                sset=s1)
+    p = Pair()
+    tc, ts = p.handshake(fl)
+    if tc.status != "done" or ts.status != "done" or \
+            p.s.session.clientCertChain is None:
+        ctx.inconc("stolen_ticket: source handshake failed %r %r" % (
+            tc.exc, ts.exc))
+        return
+    pump(p, p.c, p.csock)
+    if not p.c.tickets:
+        ctx.inconc("stolen_ticket: no ticket issued")
+        return
+    victim_fp = p.s.session.clientCertChain.getFingerprint()
+    blob = bytearray(p.c.tickets[0].ticket)
+    if var == "honest":
+        # the rightful owner resumes: identity carried over legitimately
+        fl2 = Flavor("cert", skey="rsa", req_cert=True,
+                     cset=ver_settings((3, 4), cipherNames=["aes128gcm"]),
+                     sset=ver_settings((3, 4), ticketKeys=TK),
+                     session=p.c.session)
+    else:
+        suites = {"other_hash": ["aes256gcm"], "same_hash": ["aes128gcm"],
+                  "both": ["aes256gcm", "aes128gcm"]}[var]
+        h = "sha384" if var == "claims_sha384" else "sha256"
+        cs = ver_settings((3, 4), cipherNames=suites,
+                          pskConfigs=[(blob, bytearray(32), h)])
+        fl2 = Flavor("cert", skey="rsa", req_cert=True, cset=cs,
+                     sset=ver_settings((3, 4), ticketKeys=TK))
+    p2 = Pair()
+    tc2, ts2 = p2.handshake(fl2)
+    ctx.ev()
+    key = {"site": "stolen_ticket", "class": var}
+    W = {"case": cid, "outcome": [outcome(tc2), outcome(ts2)]}
+    sess = p2.s.session
+    chain = sess.clientCertChain if sess is not None else None
+    has_id = chain is not None and chain.getNumCerts() > 0
+    if var == "honest":
+        if ts2.status != "done" or not has_id or not p2.s.resumed:
+            ctx.violation(dict(key, clause="honest_rejected"), W,
+                          "owner of the ticket did not resume with its "
+                          "identity: %r resumed=%r id=%r" % (
+                              ts2.exc, p2.s.resumed, has_id))
+        else:
+            ctx.count("honest_accepted")
+    elif ts2.status == "done" and (has_id or p2.s.resumed):
+        ctx.violation(dict(key, clause="identity_without_proof",
+                           resumed=bool(p2.s.resumed), identity=has_id), W,
+                      "server completed with clientCertChain=%s resumed=%r "
+                      "for a peer that proved nothing" % (
+                          "victim's" if has_id and chain.getFingerprint() ==
+                          victim_fp else has_id, p2.s.resumed))
+    else:
+        ctx.count("rejected" if ts2.status != "done"
+                  else "completed_anonymous")
+    ctx.cell("cell", "stolen_ticket|%s|%s|%s|%s" % (
+        var, outcome(ts2)[0], has_id, bool(p2.s.resumed)))
 
 
 def run_finished(ctx, cid, P):
@@ -647,6 +773,8 @@ def run(ctx):
             run_finished(ctx, cid, P)
         elif s == "checker":
             run_checker(ctx, cid, P)
+        elif s == "stolen_ticket":
+            run_stolen_ticket(ctx, cid, P)
         else:
             run_proof(ctx, cid, P)
 
